@@ -3,7 +3,7 @@ from __future__ import annotations
 
 import ast
 
-from ..algo_eval import (Evaluator, accepts_of, component_value, country_fields, explore_method, is_library_exc, probes,
+from ..algo_eval import (Evaluator, accepts_of, all_values_agreement, component_value, country_fields, explore_method, is_library_exc, probes,
                          struct_positions)
 from ..interp import CannotEvaluate, PathLimit
 from ..srcmodel import AnalysisError, Func
@@ -115,14 +115,20 @@ def run(ctx, report):
         # table: probes
         ref = NAT.COMPUTE.get(cc)
         vref = NAT.VERDICT.get(cc)
+        if ref is None and vref is None:
+            # registered for a country outside the 22 (already reported by R06-reg): no reference to compare with
+            continue
         n = 0
         mism = None
+        computed = []
         for p in probes(fields, acc, ctx.seed):
             args = [p.get(c, "") for c in acc]
             n += 1
             if ref is not None:
                 want = ref(p)
                 got = ev.call(r.cls, "compute", [args])
+                if got[0] == "ret" and isinstance(got[1], str):
+                    computed.append((p, args, got[1]))
                 if want is None:
                     ok = got[0] == "exc" and is_library_exc(prog, got[1])
                 else:
@@ -134,6 +140,12 @@ def run(ctx, report):
                 got = ev.call(r.cls, "validate", [args, p.get("national_checksum_digits", "")])
                 if got != ("ret", want) and mism is None:
                     mism = (p, "validate", got, want)
+        if mism is None and computed:
+            # the verdict side: exactly the published digits are accepted among all values of the field
+            extra, mm = all_values_agreement(ev, r.cls, acc, computed)
+            n += extra
+            if mm is not None:
+                mism = (mm[0], "validate", ("ret", mm[1]), "acceptance of exactly the computed check digits")
         r_tab.instance({"country": cc, "probes": n}, n=1)
         if mism is not None:
             p, meth, got, want = mism
